@@ -39,6 +39,12 @@ CFG = {
              "its OWN tex.Buffer/bytes.Buffer pair, 25 000 rounds each (100 000 thorough) of 12..21 operations heavy in 2/3/4-byte "
              "WriteRune with runes, payloads and reader chunks distinct per goroutine; the first two, the last and up to six "
              "rounds per goroutine that an (untrusted) Go comparison flags are emitted as ordinary two-sided cases; "
+             "classes alias-tex / alias-eq (24 instances): two buffers built from the SAME run-time-built string (then a third), resp. from "
+             "the same slice per side; the first performs the in-place write paths (ReWrite, drain-then-Write, slide-down, "
+             "Truncate(0)+Write), the untouched ones are then observed as ordinary cases (string: original bytes; slice: the "
+             "current contents, NewBuffer aliases by contract); ops that panic on their argument are ordinary steps in the middle "
+             "of histories and are injected right after successful reads so that Unread* follows them; ONil = a method called on "
+             "a nil *Buffer of either type (String answers <nil>, Len is a nil dereference); "
              "a case is non-trivial when at least two of its operations moved bytes (wrote "
              "something or consumed at least one byte); distinct = distinct Coq term (operations + everything observed)"),
     "trusted": ["bytes.Buffer of the installed Go toolchain as the reference implementation (observed, not proved)",
